@@ -17,3 +17,11 @@ PROPS['C14'] = dict(
         dict(crate='value', harnesses=_VALUE_H, features='nan_boxing', kind='complete', assumption_ids=['A-nan', 'A-kani'])],
   not_decided=['"same output for every program" beyond Value itself: the rest of the runtime is representation-agnostic by typing; stated, not proved'],
 )
+
+PROPS['C12'] = dict(
+  level='proof',
+  verus=[dict(unit='peephole', min_functions=18)],
+  not_decided=['A-invoke: the instruction-set meaning of Invoke/SuperInvoke is an axiom here (VM side: C03/C13)',
+               'A-delim: Call(n>0) is preceded by ArgumentDelimiter (emitted by Compiler::call, outside reach)',
+               'A-raw: locals/boxes/captures/module symbols modelled as a store separate from the operand stack'],
+)
